@@ -16,29 +16,9 @@
 (* transform(X') maps X' through the fitted token vocabulary in the same   *)
 (* way (unseen tokens deleted / masked) and counts fitted columns only.    *)
 (***************************************************************************)
-EXTENDS CorpusGen
+EXTENDS TokStage
 CONSTANTS Cfgs
-None == -1
 cfg == Cfgs[ci]
-MASK == V
-
-\* ---------------------------------------------------------------- stage 1
-Flat(c) == FlattenSeq(c)
-TCount(c, t) == CountIn(Flat(c), t)
-TDoc(c, t) == Cardinality({d \in DOMAIN c : \E p \in DOMAIN c[d] : c[d][p] = t})
-NumOK(p, cnt, dcnt) == /\ (p.minOcc # None => cnt >= p.minOcc) /\ (p.maxOcc # None => cnt <= p.maxOcc)
-                       /\ (p.minDocOcc # None => dcnt >= p.minDocOcc) /\ (p.maxDocOcc # None => dcnt <= p.maxDocOcc)
-TopK(S, Cnt(_), k) == IF k = None \/ Cardinality(S) <= k THEN S
-                      ELSE LET x == CHOOSE y \in {Cnt(t) : t \in S} :
-                                       /\ Cardinality({t \in S : Cnt(t) > y}) <= k
-                                       /\ Cardinality({t \in S : Cnt(t) >= y}) >= k + 1
-                           IN {t \in S : Cnt(t) > x}
-KeptTok(c, f) == TopK({t \in Tok : TCount(c, t) > 0 /\ NumOK(f.tok, TCount(c, t), TDoc(c, t)) /\ t \notin f.tok.excluded},
-                      LAMBDA t : TCount(c, t), f.tok.maxUnique)
-\* the sequences seen by stage 2 / by the counting loop
-Pre(doc, K, f) == IF f.mask THEN [p \in DOMAIN doc |-> IF doc[p] \in K THEN doc[p] ELSE MASK]
-                  ELSE SelectSeq(doc, LAMBDA t : t \in K)
-PreC(c, K, f) == [d \in DOMAIN c |-> Pre(c[d], K, f)]
 
 \* ---------------------------------------------------------------- stage 2
 Sizes(f) == IF f.mode = "exact" THEN {f.n} ELSE 1..f.n
